@@ -67,10 +67,13 @@ ApplyFills(L, fills) ==   \* Simulator._update_agents_for_execution at unit pric
 \* accept the order / cancel `op` of agent a on market m; then, iff the session executes, one matching round,
 \* then holdings for the whole round, then the callbacks (owner; buyer and seller of every fill - a
 \* deterministic chain without choices, checked on recorded runs by TraceLedger), log records queued in order
-Accept(a, op, m) ==
-  LET b1 == IF op = "cancel" THEN book \ {Oldest(Own(a))}
+\* tgt: for a cancel, the seq of the order the agent chose when it was consulted (it may be gone by now:
+\* the cancel is still accepted, the book does not change)
+Accept(a, op, m, tgt) ==
+  LET b1 == IF op = "cancel" THEN {o \in book : o.seq # tgt}
             ELSE book \cup {[seq |-> nextId, ag |-> a, buy |-> (op = "buy"), m |-> m]}
-      r == IF S.exec THEN MatchAll(b1, IF op = "cancel" THEN Oldest(Own(a)).m ELSE m, <<>>)
+      tm == IF op = "cancel" THEN (IF \E o \in book : o.seq = tgt THEN (CHOOSE o \in book : o.seq = tgt).m ELSE m) ELSE m
+      r == IF S.exec THEN MatchAll(b1, tm, <<>>)
            ELSE [book |-> b1, fills |-> <<>>]
       nf == Len(r.fills) IN
   /\ book' = r.book
@@ -139,7 +142,8 @@ Consult(a, op, m) ==
   /\ cN' = [cN EXCEPT ![a] = @ + 1]
   /\ LET e == EffOp(a, op) IN
      IF e = "none" THEN UNCHANGED <<nN, coll>>
-     ELSE nN' = nN + 1 /\ coll' = Append(coll, [ag |-> a, op |-> e, m |-> m])
+     ELSE nN' = nN + 1 /\ coll' = Append(coll, [ag |-> a, op |-> e, m |-> m,
+                                                   tgt |-> IF e = "cancel" THEN Oldest(Own(a)).seq ELSE -1])
   /\ UNCHANGED <<phase, s, k, clock, tickTodo, todo, inH, remH, nH, handled, cH, MarketVars, LogVars>>
 
 CollectDone ==
@@ -153,9 +157,7 @@ HandleBatch(i, gate) ==
   /\ nextId < MaxOrders
   /\ todo' = todo \ {i}
   /\ handled' = handled + 1
-  /\ LET b == coll[i]  e == EffOp(b.ag, b.op) IN
-       IF e = "none" THEN UNCHANGED <<MarketVars, LogVars>>      \* the cancel's target vanished meanwhile (abstracted)
-       ELSE Accept(b.ag, e, b.m)
+  /\ LET b == coll[i] IN Accept(b.ag, b.op, b.m, b.tgt)
   /\ (S.rate = 0 => ~gate) /\ (S.rate = 2 => gate)
   /\ inH' = gate /\ remH' = (IF gate THEN HFT ELSE {}) /\ nH' = 0
   /\ UNCHANGED <<phase, s, k, clock, tickTodo, remN, nN, coll, cN, cH>>
@@ -166,7 +168,7 @@ ConsultH(h, op, m) ==
   /\ remH' = remH \ {h} /\ cH' = cH + 1
   /\ LET e == EffOp(h, op) IN
        IF e = "none" THEN UNCHANGED <<MarketVars, LogVars, nH>>
-       ELSE Accept(h, e, m) /\ nH' = nH + 1
+       ELSE Accept(h, e, m, IF e = "cancel" THEN Oldest(Own(h)).seq ELSE -1) /\ nH' = nH + 1
   /\ UNCHANGED <<phase, s, k, clock, tickTodo, remN, nN, coll, todo, inH, handled, cN>>
 
 HftDone ==
